@@ -2,7 +2,7 @@ import os, sys
 sys.path.insert(0, os.path.dirname(os.path.abspath(__file__)))
 import parfor_common
 
-THEOREMS = []
+THEOREMS = ["Dispenso.ParFor." + t for t in ["C48_tasks_bound", "C48_serial", "C48_tasks_pool", "C48_tail_not_concurrent"]]
 
 
 def run(ctx, replay):
